@@ -33,12 +33,20 @@ pub fn expected(v: &RView) -> Expect {
         }
         "204" => {
             // C1 (C01): the amount in field 19 must equal the sum of the amounts in all occurrences of field 32B (exactly)
-            let amounts: Vec<DecStr> = seqs.iter().flat_map(|s| all(s, "32B")).filter_map(amount_of).collect();
+            let amounts: Vec<DecStr> = seqs
+                .iter()
+                .flat_map(|s| all(s, "32B"))
+                .filter_map(amount_of)
+                .collect();
             if let Some(total) = get(&top, "19").and_then(amount_of) {
                 e.must_if(scaled(&total) != sum(&amounts), "C01");
             }
             // C2 (C02): the currency code in 32B must be the same for all occurrences
-            let ccys: BTreeSet<String> = seqs.iter().flat_map(|s| all(s, "32B")).map(ccy_of).collect();
+            let ccys: BTreeSet<String> = seqs
+                .iter()
+                .flat_map(|s| all(s, "32B"))
+                .map(ccy_of)
+                .collect();
             e.must_if(ccys.len() > 1, "C02");
             // C3 (T10): sequence B must not appear more than ten times
             e.must_if(seqs.len() > 10, "T10");
@@ -51,7 +59,11 @@ pub fn expected(v: &RView) -> Expect {
                 e.must_if(has(s, "50*") == has(s, "52*"), "C06");
             }
             // C3 (C02): the currency code must be the same for all occurrences of 32B
-            let ccys: BTreeSet<String> = seqs.iter().flat_map(|s| all(s, "32B")).map(ccy_of).collect();
+            let ccys: BTreeSet<String> = seqs
+                .iter()
+                .flat_map(|s| all(s, "32B"))
+                .map(ccy_of)
+                .collect();
             e.must_if(ccys.len() > 1, "C02");
         }
         _ => {}
@@ -64,15 +76,22 @@ pub fn content_hook(mt: &str, tag: &str, src: &mut crate::choice::Src) -> Option
         // MT204: few amounts, so that field 19 is often the exact sum, one cent / one unit off, or far off
         ("204", "32B") => {
             let c = *src.pick(&["USD", "USD", "USD", "USD", "USD", "EUR", "USD", "JPY"]);
-            let a = if c == "JPY" { *src.pick(&["100,", "100,", "50,"]) } else { *src.pick(&["100,", "100,", "100,", "100,", "100,00", "50,", "50,", "100,01"]) };
+            let a = if c == "JPY" {
+                *src.pick(&["100,", "100,", "50,"])
+            } else {
+                *src.pick(&[
+                    "100,", "100,", "100,", "100,", "100,00", "50,", "50,", "100,01",
+                ])
+            };
             Some(format!("{c}{a}"))
         }
         // weighted towards the most frequent sums (100, 200, 150, 300), their neighbours at one cent / a fraction of a
         // cent / one unit, and other spellings of the same number
         ("204", "19") => Some(
             src.pick(&[
-                "100,", "100,", "100,", "100,", "100,00", "200,", "200,", "200,", "150,", "150,", "300,", "50,", "100,01", "99,99", "200,01", "199,99", "200,02", "100,001", "200,005", "150,01", "100,010", "101,",
-                "250,", "1000,",
+                "100,", "100,", "100,", "100,", "100,00", "200,", "200,", "200,", "150,", "150,",
+                "300,", "50,", "100,01", "99,99", "200,01", "199,99", "200,02", "100,001",
+                "200,005", "150,01", "100,010", "101,", "250,", "1000,",
             ])
             .to_string(),
         ),
